@@ -172,8 +172,8 @@ PROPS["C01"] = {
     "claimed": True, "module": "Rough.Props.C01", "need_bins": True,
     "theorems": ["Rough.Props.C01.C01_sound", "Rough.Props.C01.C01_no_replay"],
     "streams": [{"args": ["client-forged"], "shards_quick": 12, "shards_thorough": 16}],
-    "ops": ["client"], "trivial": r"^$", "min_nontrivial": 100,
-    "rule": "client process runs with a pinned key (hex and base64), both protocols; per group an honest control and: bit flip / re-randomisation / last-byte change in each region SIG, NONC, PATH, INDX, SREP.{MIDP,RADI,ROOT,VER}, CERT.SIG, DELE.{PUBK,MINT,MAXT}; full re-signing by another long-term key; delegation or response signed under the other protocol's context; CERT spliced from the other protocol; whole response in the other protocol's format; response for another request of the same batch; own NONC with the other leaf's path; properly signed midpoint before/after/at the edge of the delegation window; replay of the previous run's genuine response; replay within a -n 2 run; stateful forgeries in a -n 2 run whose first response is genuine and whose second is forged (attacker DELE under the genuine CERT.SIG, attacker SREP under the genuine CERT, other long-term key, region flips, window); truncation at 4-byte boundaries (9 quick / 110 thorough); random byte mutations; extension, garbage, empty datagram. L1 = a time line printed or exit 0 only if the independent `authentic` predicate (signature chain, window, Merkle binding of this request) holds, printed time = signed midpoint. L2 = exit status and printed fields equal the model's. every case distinct (fresh nonce)",
+    "ops": ["client", "noncepool"], "trivial": r"^$", "min_nontrivial": 100,
+    "rule": "client process runs with a pinned key (hex and base64), both protocols; per group an honest control and: bit flip / re-randomisation / last-byte change in each region SIG, NONC, PATH, INDX, SREP.{MIDP,RADI,ROOT,VER}, CERT.SIG, DELE.{PUBK,MINT,MAXT}; full re-signing by another long-term key; delegation or response signed under the other protocol's context; CERT spliced from the other protocol; whole response in the other protocol's format; response for another request of the same batch; own NONC with the other leaf's path; properly signed midpoint before/after/at the edge of the delegation window; replay of the previous run's genuine response; replay within a -n 2 run; stateful forgeries in a -n 2 run whose first response is genuine and whose second is forged (attacker DELE under the genuine CERT.SIG, attacker SREP under the genuine CERT, other long-term key, region flips, window); truncation at 4-byte boundaries (9 quick / 110 thorough); random byte mutations; extension, garbage, empty datagram; a 40-request run whose last request is answered with the first request's genuine response; nonce freshness as a measurement: nonces pairwise distinct within every run and across all runs of the stream. L1 = a time line printed or exit 0 only if the independent `authentic` predicate (signature chain, window, Merkle binding of this request) holds, printed time = signed midpoint. L2 = exit status and printed fields equal the model's. every case distinct (fresh nonce)",
     "trusted_base": CLIENT_TB,
     "assumptions": ["nonce freshness (SystemRandom) is outside the model; the harness checks that all nonces seen in a run are distinct (statistical)", "datagrams longer than the client's 4096-byte buffer are truncated by the OS before the client sees them"],
     "design_ref": "5/C01",
